@@ -267,21 +267,25 @@ class ScriptApp:
             if not w.finished:
                 inst.outcome = "raised:AppCrash"
                 inst.t_end = w.now()
+                inst.seq_end = w.next_seq()
             raise
         except w.cancelled_exc:
             if not w.finished:
                 inst.outcome = "cancelled"
                 inst.t_end = w.now()
+                inst.seq_end = w.next_seq()
             raise
         except BaseException as e:  # an exception the server threw into the app (send raised...)
             if not w.finished:
                 inst.outcome = f"raised:{type(e).__name__}"
                 inst.t_end = w.now()
+                inst.seq_end = w.next_seq()
             raise
         else:
             if not w.finished:
                 inst.outcome = "returned"
                 inst.t_end = w.now()
+                inst.seq_end = w.next_seq()
 
     async def _recv(self, inst: Instance, receive: Callable) -> dict:
         w = self.world
@@ -311,6 +315,7 @@ class ScriptApp:
                 rec[1] = w.now()
                 rec[3] = type(e).__name__
                 inst.log.append((w.now(), "send_raised", type(e).__name__))
+            inst.last_send_exc = e
             return type(e).__name__
         if w.finished:
             return None
@@ -339,10 +344,10 @@ class ScriptApp:
                         break
             elif kind == "send":
                 await self._send(inst, send, op[1])
-            elif kind == "send_strict":  # raise out of the app if send raised
+            elif kind == "send_strict":  # like an application that does not catch: what send() raised propagates
                 err = await self._send(inst, send, op[1])
                 if err is not None:
-                    raise AppCrash()
+                    raise inst.last_send_exc
             elif kind == "gate":
                 await w.wait_gate(inst, op[1])
             elif kind == "sleep":
